@@ -261,6 +261,21 @@ def probe_single(ctx, desc):
         proc.markov_chain.simulate_one_path = wrapped
         np.random.seed(desc["np_seed"])
     try:
+        if desc.get("warm"):
+            # an earlier path on the same SDE object (its driver path is whatever comes first): the scheme of the next path
+            # must not depend on it
+            if desc.get("scripted"):
+                k_ = max(2, len(times) // 2 + 1)
+                tw = np.linspace(0.0, float(times[-1]), k_)
+                shape_w = (k_,) if d == 1 else (d, k_)
+                proc.markov_chain.simulate_one_path = lambda: StochasticJumpPath(tw.copy(), np.cumsum(np.full(shape_w, 0.25), axis=-1) - 0.25,
+                                                                               np.cumsum(np.full(shape_w, -0.5), axis=-1) + 0.5)
+                proc.simulate_one_path()
+                proc.markov_chain.simulate_one_path = fake
+            else:
+                proc.simulate_one_path()
+            captured.clear()
+            ctx.branches["c16.euler:after_an_earlier_path_on_the_same_object"] += 1
         out = proc.simulate_one_path()
     except Exception as e:  # noqa
         ctx.count(probe, desc, nontrivial=False, branch="raises:" + cd["kind"])
@@ -390,6 +405,10 @@ def probe_coupled(ctx, desc):
         cp.driver_coupling_process.simulate_one_path_with_coupling = wrapped
         np.random.seed(desc["np_seed"])
     try:
+        if desc.get("warm") and not desc.get("scripted"):
+            cp.simulate_one_path_with_coupling()          # an earlier coupled path on the same object
+            captured.clear()
+            ctx.branches["c16.euler:after_an_earlier_path_on_the_same_object"] += 1
         out = cp.simulate_one_path_with_coupling()
     except Exception as e:  # noqa
         ctx.count(probe, desc, nontrivial=False, branch="raises:" + cd["kind"])
@@ -577,6 +596,8 @@ def gen_case(rng, coupled, scripted, kinds=None):
         desc["level"] = rng.choice([1, 2, 2, 3]) if dim == 1 else rng.choice([1, 2])
     if scripted:
         desc["scripted"] = gen_scripted(rng, dim, cd["maturity"], coupled)
+    if rng.random() < 0.3:
+        desc["warm"] = True
     return desc
 
 
